@@ -235,6 +235,7 @@ def byte_payload(ctx):
 
 # --------------------------------------------------------------------------- recursion
 @rule("C20.recursion", props=["C20"], min_instances=7, mutants=[
+    ("a coefficient array is sliced along its last axis first", ("graph", "        yield from (encode(value) for value in o.itermv())", "        if isinstance(o._values, np.ndarray):\n            yield from (encode(o.fromkeysvalues(o.algebra, o._keys, o._values[..., i])) for i in range(o.shape[-1]))\n        else:\n            yield from (encode(value) for value in o.itermv())")),
     ("callable result not encoded", ("graph", "        yield encode(o(), tree_types)", "        yield o()")),
     ("array-valued test looks at the container only", ("graph", "    elif isinstance(o, MultiVector) and len(o.shape) > 1:", "    elif isinstance(o, MultiVector) and getattr(o._values, 'ndim', 1) > 1:")),
     ("tuple elements reversed", ("graph", "        yield o.__class__(encode(value, tree_types) for value in o)", "        yield o.__class__(encode(value, tree_types) for value in reversed(o))")),
